@@ -40,7 +40,7 @@ LEVEL_TEXT = (
     "rejects (ValueError / AuthFailure / PermissionError)} x proof {valid, absent, empty, malformed, expired, not-yet-valid, bad MAC, "
     "unknown kid, wrong origin, duplicated header, replayed}; each cell is executed through the real WSGI app and judged on the "
     "AuthContext handed to the method, the inner-authenticator call counter and a baseline app without the gate. "
-    "The thorough tier adds seeded single-field mutations of valid proofs."
+    "Chains of two require_all alternatives with different gates (both orders x proof for A/B/none x inner verdicts) are judged against the documented composition. The thorough tier adds seeded single-field mutations of valid proofs."
 )
 LEVEL_NOTE = "independent minter from the spec; clock injected through proxy_proof_gate(now=...); Falcon/WSGI driver trusted"
 CATEGORY = "exploration"
